@@ -11,7 +11,6 @@ CONSTANTS
   BlockSize = 8
   Pos <- MCPos
   TheRepo = "r1"
-  Contents <- MCContents
   SpaceSel = "genquick"
 INVARIANT Emit
 CHECK_DEADLOCK FALSE
